@@ -1410,7 +1410,7 @@ Proof.
   induction p as [|k r IH]; intros sch ty mW d sf sf1 Hf Hne Hl; [destruct Hl|].
   pose proof (filter_lookup _ _ _ Hf Hne k) as Hfl. simpl in Hl.
   destruct (nm_lookup k mW) as [sub|] eqn:El; [|destruct Hl].
-  simpl expect_at. rewrite Hfl. unfold vget at 2. simpl fields_of.
+  simpl expect_at. rewrite Hfl. change (vget k (VM sf)) with (alookup k sf).
   destruct (alookup k sf) as [x|] eqn:Es; [|reflexivity].
   unfold filter_field. destruct (nm_empty sub) eqn:Esub; [reflexivity|].
   assert (r <> []) as Hr by (eapply leaf_at_nonnil; eauto).
@@ -1565,4 +1565,24 @@ Corollary inside_message_merged : forall sch ty p dst src f,
 Proof.
   intros. rewrite expect_at_spec by auto. rewrite H0. unfold merge_val.
   destruct (get_at p dst) as [[| | |]|]; reflexivity.
+Qed.
+
+(* nil update mask on a resource where every field is writable: the stored message becomes the written
+   one (minus the reset fields) *)
+Theorem nil_masks_replace : forall sch ty dst sf,
+  merge sch ty None None None dst (VM sf) = MOk (VM sf) (VM sf).
+Proof.
+  intros. unfold merge, merge_gen. cbv zeta. simpl mask_paths.
+  change (nested_of_paths (normalize_paths [])) with (NM []).
+  rewrite !nm_filter_empty_mask. rewrite merge_into_empty, prune_empty_nil. reflexivity.
+Qed.
+
+Theorem nil_masks_replace_reset : forall sch ty rs dst sf post src',
+  merge sch ty None None (Some rs) dst (VM sf) = MOk post src' ->
+  nm_prune (trie rs) (VM sf) = Some post.
+Proof.
+  intros sch ty rs dst sf post src' H. unfold merge, merge_gen in H. cbv zeta in H. simpl mask_paths in H.
+  change (nested_of_paths (normalize_paths [])) with (NM []) in H.
+  rewrite !nm_filter_empty_mask in H. rewrite merge_into_empty, prune_empty_nil in H. fold (trie rs) in H.
+  destruct (nm_prune (trie rs) (VM sf)); inversion H. reflexivity.
 Qed.
